@@ -381,7 +381,9 @@ pub enum Leg {
     /// AsRef<str> / Into<&'static str> on a transparent variant
     Conv { variant: usize, inner: (u64, u64, i64) },
     /// capture by the default variant
-    Capture { input: String, try_from: bool },
+    /// `warm`: an input parsed (and thrown away) before the checked one - whatever an earlier parse leaves behind must
+    /// not reach the next one
+    Capture { input: String, try_from: bool, warm: Option<String> },
 }
 
 #[derive(Clone, Debug, PartialEq)]
@@ -422,7 +424,13 @@ impl Leg {
                 plan.line(),
             ],
             Leg::Conv { variant, inner } => vec!["leg conv".into(), format!("variant {}", variant), format!("inner {} {} {}", inner.0, inner.1, inner.2)],
-            Leg::Capture { input, try_from } => vec!["leg capture".into(), format!("input_hex {}", hex(input)), format!("via {}", if *try_from { "try_from" } else { "from_str" })],
+            Leg::Capture { input, try_from, warm } => {
+                let mut v = vec!["leg capture".into(), format!("input_hex {}", hex(input)), format!("via {}", if *try_from { "try_from" } else { "from_str" })];
+                if let Some(w) = warm {
+                    v.push(format!("warmup_hex {}", hex(w)));
+                }
+                v
+            }
         }
     }
     pub fn parse(lines: &[String]) -> Result<Leg, String> {
@@ -433,6 +441,7 @@ impl Leg {
         let mut plan = Plan::None;
         let mut input = String::new();
         let mut try_from = false;
+        let mut warm: Option<String> = None;
         for l in lines {
             let p: Vec<&str> = l.split_whitespace().collect();
             let num = |i: usize| -> Result<i64, String> { p.get(i).ok_or(format!("missing arg in {:?}", l))?.parse::<i64>().map_err(|e| format!("{:?}: {}", l, e)) };
@@ -457,13 +466,14 @@ impl Leg {
                 Some("plan") => plan = Plan::parse(p.get(1).copied().unwrap_or("none"), num(2)? as u32)?,
                 Some("input_hex") => input = unhex(p.get(1).copied().unwrap_or("-"))?,
                 Some("via") => try_from = p.get(1).copied() == Some("try_from"),
+                Some("warmup_hex") => warm = Some(unhex(p.get(1).copied().unwrap_or("-"))?),
                 o => return Err(format!("bad line {:?}", o)),
             }
         }
         Ok(match leg {
             "display" => Leg::Display { variant, inner, call, plan },
             "conv" => Leg::Conv { variant, inner },
-            "capture" => Leg::Capture { input, try_from },
+            "capture" => Leg::Capture { input, try_from, warm },
             _ => return Err("missing leg".into()),
         })
     }
@@ -758,11 +768,19 @@ pub fn exec(case: &Case, leg: &Leg, mut stats: Option<&mut Stats>, keep_log: boo
             }
             (Ok(()), info)
         }
-        Leg::Capture { input, try_from } => {
+        Leg::Capture { input, try_from, warm } => {
             let dv = match case.default_variant() {
                 Some(d) if case.has_from_str => d,
                 _ => return (Ok(()), info),
             };
+            if let Some(w) = warm {
+                info.trace.s(w);
+                // the warm-up parse: not judged here (the same input is judged by the runs that check it)
+                let _ = catch(|| {
+                    let _ = (case.parse)(w, *try_from).map(|sub| sub.display().to_string());
+                });
+                log_clear();
+            }
             let v = &case.variants[dv];
             let sig = |o: &str| format!("{}:capture:{}:{}:nofault", o, v.role, v.form);
             let mk_fail = |oracle: &'static str, e: String, o: String| Failure { oracle, sig: sig(oracle), expected: e, observed: o };
@@ -1034,7 +1052,13 @@ pub fn gen_leg(rng: &mut Rng, case: &Case) -> Leg {
             Leg::Display { variant, inner, call, plan }
         }
         1 => Leg::Conv { variant: rng.usize_below(8), inner: inner(rng) },
-        _ => Leg::Capture { input: gen_input(rng, case), try_from: rng.chance(1, 2) },
+        _ => {
+            let input = gen_input(rng, case);
+            let try_from = rng.chance(1, 2);
+            // (drawn last) a warm-up parse of another input, or of the same one, in three runs out of ten
+            let warm = if rng.chance(30, 100) { Some(if rng.chance(1, 2) { gen_input(rng, case) } else { input.clone() }) } else { None };
+            Leg::Capture { input, try_from, warm }
+        }
     }
 }
 
@@ -1101,20 +1125,23 @@ fn minimise(case: &Case, leg: Leg, sig: &str) -> Leg {
                     cands.push(Leg::Conv { variant: cv, inner: *inner });
                 }
             }
-            Leg::Capture { input, try_from } => {
+            Leg::Capture { input, try_from, warm } => {
+                if warm.is_some() {
+                    cands.push(Leg::Capture { input: input.clone(), try_from: *try_from, warm: None });
+                }
                 if *try_from {
-                    cands.push(Leg::Capture { input: input.clone(), try_from: false });
+                    cands.push(Leg::Capture { input: input.clone(), try_from: false, warm: warm.clone() });
                 }
                 // shrink the input: drop characters while the same failure persists
                 let chars: Vec<char> = input.chars().collect();
                 if chars.len() > 16 {
-                    cands.push(Leg::Capture { input: chars[..chars.len() / 2].iter().collect(), try_from: *try_from });
-                    cands.push(Leg::Capture { input: chars[chars.len() / 2..].iter().collect(), try_from: *try_from });
+                    cands.push(Leg::Capture { input: chars[..chars.len() / 2].iter().collect(), try_from: *try_from, warm: warm.clone() });
+                    cands.push(Leg::Capture { input: chars[chars.len() / 2..].iter().collect(), try_from: *try_from, warm: warm.clone() });
                 }
                 for i in 0..chars.len().min(64) {
                     let mut c = chars.clone();
                     c.remove(i);
-                    cands.push(Leg::Capture { input: c.into_iter().collect(), try_from: *try_from });
+                    cands.push(Leg::Capture { input: c.into_iter().collect(), try_from: *try_from, warm: warm.clone() });
                 }
             }
         }
@@ -1149,12 +1176,12 @@ fn minimise_step(case: &Case, leg: Leg, sig: &str) -> Leg {
         }
     };
     match &leg {
-        Leg::Capture { input, try_from } => {
+        Leg::Capture { input, try_from, warm } => {
             let chars: Vec<char> = input.chars().collect();
             for i in 0..chars.len().min(128) {
                 let mut c = chars.clone();
                 c.remove(i);
-                let cand = Leg::Capture { input: c.into_iter().collect(), try_from: *try_from };
+                let cand = Leg::Capture { input: c.into_iter().collect(), try_from: *try_from, warm: warm.clone() };
                 if same(&cand) {
                     return cand;
                 }
